@@ -39,6 +39,7 @@ pub mod observers;
 pub mod shapes;
 pub mod sources;
 pub mod unwind;
+pub mod zst;
 
 use ledger::{Anomaly, Ctx, St, Tracked};
 use shapes::*;
@@ -1202,6 +1203,11 @@ pub fn property() -> Property {
             });
         }};
     }
+    checks.push(Check {
+        name: "element-layouts",
+        about: "element types with an unusual layout (zero-sized with drop glue, one byte, align 64, 72 bytes; plus (), [u64; 0], PhantomData) x 13 vector types x {shared views, mutable views, every (front, back) split of the consuming iterator, arrays / tuples, FromIterator with source length 0..=n+2, map / zip, unit elements} and x 6 matrix types x {flat arrays, nested arrays, transpose / map, lines / Debug / diagonal}: every view has one entry per element inside the value's own storage, position k holds element k, every constructed element is dropped exactly once (counted by the element type itself)",
+        kind: Kind::Index { total: zst::TOTAL, quick: zst::TOTAL, thorough: zst::TOTAL, f: zst::layout_case },
+    });
     per_mat_unwind!(rm::Mat2<Tracked>, 2, 4, "unwind-row-mat2");
     per_mat_unwind!(cm::Mat2<Tracked>, 2, 4, "unwind-col-mat2");
     per_mat_unwind!(rm::Mat3<Tracked>, 3, 9, "unwind-row-mat3");
